@@ -219,6 +219,14 @@ mod verif_pool {
 
     #[kani::proof]
     #[kani::unwind(6)]
+    pub fn alloc_same_type_larger_first() {
+        // the larger buffer is pooled BEFORE the smaller one: a best-fit search must not trade a
+        // fitting candidate for a later, smaller one that does not fit
+        check_alloc::<f32, f32, f32>(0, 32, 8);
+    }
+
+    #[kani::proof]
+    #[kani::unwind(6)]
     pub fn alloc_mixed_types() {
         // same size+align (u32 -> f32) is reusable, the u64 buffer is not
         check_alloc::<u32, u64, f32>(16, 33, 8);
